@@ -127,7 +127,7 @@ def _field_chunk(args):
         ref, ov1 = simulate(mi, 1)
         for k in got:
           g, r = got[k][w], ref[k][0]
-          if not np.allclose(g, r, rtol=2e-5, atol=2e-6, equal_nan=True):
+          if not np.array_equal(g, r, equal_nan=True):  # same code, same arithmetic: bitwise
             bad = (w, k, float(np.nanmax(np.abs(np.asarray(g, dtype=np.float64) - np.asarray(r, dtype=np.float64)))))
             break
         if bad:
@@ -172,7 +172,7 @@ def run(ctx: core.Ctx):
   ctx.extra["fields_observed"] = sorted(observed)
   ctx.extra["fields_unobserved_in_this_scene"] = sorted(unobserved - observed)
   ctx.extra["fields_skipped_not_float"] = sorted(skipped)
-  ctx.assumptions += ["comparison at rtol 2e-5 / atol 2e-6 (dense model: bitwise in practice); fields whose perturbation does not change this scene's trajectory "
+  ctx.assumptions += ["bitwise comparison (dense model, CPU); fields whose perturbation does not change this scene's trajectory "
                       "are listed as unobserved and not claimed; integer / boolean / rendering-only fields are skipped"]
 
 
